@@ -32,6 +32,7 @@ All integers are little-endian for C++ interop.  Offsets are absolute
 
 from __future__ import annotations
 
+import contextlib
 import logging
 import os
 import struct
@@ -415,7 +416,14 @@ class ShmSegment:
         # peer that created the segment with a non-page-aligned size
         # (where the OS rounded up) still validates correctly.
         actual_size = shm.size
-        allocator = ShmAllocator(buf, actual_size)
+        try:
+            allocator = ShmAllocator(buf, actual_size)
+        except (ValueError, struct.error) as exc:
+            # Not one of ours (foreign segment, too small for the header, other
+            # version): let go of the mapping before reporting it.
+            with contextlib.suppress(BufferError, OSError):
+                shm.close()
+            raise ValueError(f"Shared memory segment {name!r} is not a vgi_rpc segment: {exc}") from exc
         return cls(shm, allocator)
 
     def allocate_and_write(
@@ -634,9 +642,14 @@ def resolve_shm_batch(
     assert custom_metadata is not None  # guaranteed by is_shm_pointer_batch
     offset_bytes = custom_metadata.get(SHM_OFFSET_KEY)
     length_bytes = custom_metadata.get(SHM_LENGTH_KEY)
-    assert offset_bytes is not None and length_bytes is not None  # guaranteed by is_shm_pointer_batch
+    assert offset_bytes is not None  # guaranteed by is_shm_pointer_batch
+    if length_bytes is None:
+        # is_shm_pointer_batch only looks at the offset key; the peer controls the rest.
+        raise ValueError("shared memory pointer batch carries no 'vgi_rpc.shm_length'")
     offset = int(offset_bytes)
     length = int(length_bytes)
+    if offset < 0 or length < 0 or offset + length > shm.size:
+        raise ValueError(f"shared memory pointer ({offset}, {length}) lies outside the {shm.size}-byte segment")
 
     buf = shm.read_buffer(offset, length)
     resolved_batch = _deserialize_from_shm(buf, batch.schema)
